@@ -132,6 +132,24 @@ func l41openIOClose(cl, owner, file string, access uint32) letter {
 		do:      func(w *world, f failer) { w.client41(cl).openIOClose(f, owner, file, access) }}
 }
 
+// l41openSwitchUse: OPEN of file, then a change of the current filehandle to
+// other, then user u presenting the current state ID, all in one COMPOUND.
+func l41openSwitchUse(cl, owner, file string, access uint32, other string, viaLookup bool, user string) letter {
+	var u csidUser
+	for _, cu := range csidUsers() {
+		if cu.name == user {
+			u = cu
+		}
+	}
+	how := "PUTFH"
+	if viaLookup {
+		how = "PUTROOTFH+LOOKUP"
+	}
+	return letter{name: fmt.Sprintf("41 OPEN %s %s %s %s + %s %s + %s current-stateid", cl, owner, file, accessNames[access], how, other, user),
+		enabled: func(w *world) bool { return has41(w, cl) && w.fs.linked[file] != nil && w.fs.linked[other] != nil },
+		do:      func(w *world, f failer) { w.client41(cl).openSwitchUse(f, owner, file, access, other, viaLookup, u) }}
+}
+
 func l41close(cl, owner, file string) letter {
 	return letter{name: fmt.Sprintf("41 CLOSE %s %s %s", cl, owner, file),
 		enabled: func(w *world) bool { return usable41(w, cl, owner, file) },
@@ -297,6 +315,9 @@ func seqs41() []*mc.Seq {
 		l41io(ioRead, "d1", "O1", "a", sidAnonymous, ""), l41io(ioSetattr, "d1", "O1", "a", sidOpen, ""),
 		l41test("d1"),
 		l41openIOClose("d1", "O1", "a", accBoth), l41openIOClose("d1", "O2", "a", accRead),
+		// The current state ID must not survive a change of the current
+		// filehandle (b is linked but never opened here).
+		l41openSwitchUse("d1", "O1", "a", accBoth, "b", false, "READ"), l41openSwitchUse("d1", "O2", "a", accRead, "b", true, "CLOSE"),
 		lRemove("a"),
 		lAdvance(pastLease, "lease+1"),
 	}))
@@ -340,6 +361,9 @@ func seqs41() []*mc.Seq {
 			l41close("d1", "O1", "a"), l41close("d1", "O2", "a"),
 			l41downgrade("d1", "O1", "a", accRead),
 			l41io(ioWrite, "d1", "O1", "a", sidLock, "L1"),
+			// ... and the current state ID of an OPEN of a presented at
+			// b, which the same open-owner has open as well.
+			l41openSwitchUse("d1", "O1", "a", accRead, "b", false, "WRITE"), l41openSwitchUse("d1", "O1", "a", accRead, "b", false, "LOCK(open_to_lock_owner4)"),
 		}))
 
 	// One lock-owner locking one file through the opens of two different
@@ -416,6 +440,18 @@ func seqs41() []*mc.Seq {
 			l41open("d1", "O1", "a", accRead, howNoCreate, claimNull),
 			l41sequence("d1"),
 			l41io(ioRead, "d1", "O1", "b", sidOpen, ""),
+			lAdvance(halfLease, "lease/2"),
+		}))
+	// NFSv4.1 twin of v40-two-clients-lease: d1 (created first, b open) and
+	// d2 (a open read+write, lock) keep their leases alive with bare SEQUENCE
+	// compounds or READ, or go silent.
+	out = append(out, makeSeq("v41-two-clients-lease", []string{"C18"}, map[string]int{"quick": 7, "thorough": 9},
+		chain(prefix41Session("d1", "d2"), prefix41Open("d1", "O1", "b", accRead), prefix41Open("d2", "O1", "a", accBoth), func(w *world, f failer) {
+			w.client41("d2").lock(f, open41of(w, "d2", "O1", "a"), "L1", rangeB0, false, false)
+		}), []letter{
+			l41sequence("d1"), l41sequence("d2"),
+			l41io(ioRead, "d1", "O1", "b", sidOpen, ""),
+			l41close("d2", "O1", "a"),
 			lAdvance(halfLease, "lease/2"),
 		}))
 	return out
